@@ -100,6 +100,24 @@ Definition chk_sched (c : sched_case) : bool :=
 """
 
 
+
+def coq_bad(ctx, tag, check_fn, cases, **kw):
+    """ctx.coq_bad_cases with a per-process tag (two checks of C05 may run at the same time, e.g. one
+    against a scratch tree) and removal of the generated files afterwards."""
+    import glob
+    import common
+    utag = "%s_p%d" % (tag, os.getpid())
+    try:
+        return ctx.coq_bad_cases(utag, IMPORTS, PRELUDE, check_fn, cases, **kw)
+    finally:
+        for f in glob.glob(os.path.join(common.BUILD, "cases", "%s_%s_*" % (ctx.prop, utag))) + \
+                glob.glob(os.path.join(common.BUILD, "cases", ".%s_%s_*" % (ctx.prop, utag))):
+            try:
+                os.remove(f)
+            except OSError:
+                pass
+
+
 # ------------------------------------------------------------------ literals
 def isnan(x):
     return isinstance(x, float) and math.isnan(x)
@@ -394,7 +412,7 @@ def run_top(ctx, replay):
         meta.append(dict(kind="top", spec=sp, impl=[top, rest]))
     if cases:
         ctx.sample(dict(kind="get_top_list", spec=meta[0]["spec"], impl_top_rest=meta[0]["impl"]))
-        for i in ctx.coq_bad_cases("top", IMPORTS, PRELUDE, "chk_top", cases):
+        for i in coq_bad(ctx, "top", "chk_top", cases):
             ctx.violation("correspondence", "model get_top_list differs from implementation", case=meta[i],
                           failing_input=False, broken="correspondence chk_top (model/SyncHB.v get_top_list)")
 
@@ -558,7 +576,7 @@ def run_mgr(ctx, replay):
         meta.append(dict(kind="mgr", spec=sp, impl_log=log))
     if cases:
         ctx.sample(dict(kind="bracket manager sequence", spec=meta[0]["spec"], impl_log_head=meta[0]["impl_log"][:6]))
-        for i in ctx.coq_bad_cases("mgr", IMPORTS, PRELUDE, "chk_mgr", cases, shard=40):
+        for i in coq_bad(ctx, "mgr", "chk_mgr", cases, shard=40):
             ctx.violation("correspondence", "model bracket manager differs from implementation on a next_job/on_result sequence",
                           case=meta[i], failing_input=False,
                           broken="correspondence chk_mgr (model/SyncHB.v next_job / mgr_on_result)")
@@ -807,7 +825,7 @@ def run_sched(ctx, replay):
         meta.append(dict(kind="sched", spec=sp, impl_log=log))
     if cases:
         ctx.sample(dict(kind="scheduler sequence", spec=meta[0]["spec"], impl_log_head=meta[0]["impl_log"][:6]))
-        for i in ctx.coq_bad_cases("sched", IMPORTS, PRELUDE, "chk_sched", cases, shard=40):
+        for i in coq_bad(ctx, "sched", "chk_sched", cases, shard=40):
             ctx.violation("correspondence", "model scheduler shell differs from implementation on an event sequence",
                           case=meta[i], failing_input=False,
                           broken="correspondence chk_sched (model/SyncHB.v suggest / on_trial_result / on_trial_error)")
